@@ -627,6 +627,39 @@ def completion_cases():
         "nested-block-if": [block(block(if_(T, block(expr(s_("deep"))))))],
         "throw-in-loop": [while_(T, block(expr(num(1)), throw(s_("out"))))],
     }
+    # a value produced in an *earlier* iteration / another branch must not survive a later execution that
+    # produces none (and vice versa): loop kind x inner producer x which iteration yields
+    k = id_("k")
+
+    def producers(j):
+        hit = bin_("===", k, num(j))
+        return {
+            "if": if_(hit, expr(num(7))),
+            "if-else-empty": if_(hit, expr(num(7)), EMPTY),
+            "if-block": if_(hit, block(expr(num(7)))),
+            "switch": switch(k, [(num(j), [expr(num(7)), brk()])]),
+            "switch-default-empty": switch(k, [(num(j), [expr(num(7)), brk()]), (None, [])]),
+            "inner-while": block(var(("w", num(0))), while_(bin_("&&", hit, bin_("<", id_("w"), num(1))), block(expr(upd("++", id_("w"))), expr(num(7))))),
+            "try": try_([if_(hit, expr(num(7)))], ("e", []), None),
+            "label": label("B", block(if_(bin_("!==", k, num(j)), brk("B")), expr(num(7)))),
+        }
+
+    for j in (0, 1, 2):
+        for pname, pr in producers(j).items():
+            loops = {
+                "forof": [forof(("vardecl", "k"), arr(num(0), num(1), num(2)), pr)],
+                "for": [for_(var(("k", num(0))), bin_("<", k, num(3)), upd("++", k), pr)],
+                "while": [var(("k", num(-1))), while_(bin_("<", k, num(2)), block(expr(upd("++", k)), pr))],
+                "dowhile": [var(("k", num(-1))), dowhile(block(expr(upd("++", k)), pr), bin_("<", k, num(2)))],
+                "forin": [forin(("vardecl", "q"), obj(init("a", num(0)), init("b", num(1)), init("c", num(2))),
+                                block(var(("k", bin_("-", bin_("*", num(1), bin_("+", num(0), num(0))), num(0)))), EMPTY))],
+            }
+            del loops["forin"]  # (keys are strings: no numeric k without conversions outside the safe core)
+            for lname, body in loops.items():
+                lits["iter-%s-%s-yield%d" % (lname, pname, j)] = [expr(num(5))] + body
+    # if/else joins inside a loop that runs the valueless arm last
+    lits["loop-ifelse-join"] = [forof(("vardecl", "k"), arr(num(0), num(1)), if_(bin_("===", k, num(0)), expr(num(7)), block()))]
+    lits["loop-then-plain-if"] = [forof(("vardecl", "k"), arr(num(0), num(1)), expr(num(3))), if_(F, expr(num(1)))]
     for name, body in lits.items():
         claimed = name.split("-")[0] in ("if", "block", "expr", "assign", "nested") and name not in ("if-empty-branch", "block-empty", "block-var-last", "if-no-else-f", "if-break-in-dowhile")
         tags = ["completion", "completion-claimed" if claimed else "completion-es"]
